@@ -64,6 +64,9 @@ def translation_validation(R, od):
     data = json.load(open(os.path.join(od, "c12_envs.json")))
     envs, cases = data["envs"], data["cases"]
     for g in (data.get("golden_mismatch") or []):
+        if g.startswith("versions:"):
+            R.broke("correspondence:" + g)
+            continue
         R.violation("golden-hash:" + g.split(":")[0], "golden file of the repository no longer verifies: " + g,
                     {"file": "cluster/testdata/" + g.split(":")[0], "what": g})
     byid = {c["id"]: c for c in cases}
@@ -210,6 +213,8 @@ def main():
     R.coverage["not_covered_by_any_hash_or_signature"] = mu["allowed"]
     R.coverage["hash_only_gaps_closed_by_other_checks"] = mu["hash_only_gaps_closed_by_other_checks"]
     R.coverage["leaf_coverage"] = {k: v for k, v in sorted(mu["coverage"].items())}
+    # JSON nodes whose value changes are never rejected by a hash comparison (only by the decoder or a signature check)
+    R.coverage["leaves_protected_by_signatures_or_decoder_only"] = sorted(k for k, v in mu["coverage"].items() if "hashes" not in v)
     R.coverage["traces_validated_against_impl"] = ntv
     R.add_samples([s for s in (mu.get("survivors") or [])][:2])
     R.finish()
